@@ -5,8 +5,9 @@ pub mod c05;
 pub mod c06;
 pub mod c07;
 pub mod c09;
+pub mod c11;
 pub mod hist;
 
 pub fn all() -> Vec<CheckDef> {
-    vec![c01::def(), c02::def(), c05::def(), c06::def(), c07::def(), c09::def()]
+    vec![c01::def(), c02::def(), c05::def(), c06::def(), c07::def(), c09::def(), c11::def()]
 }
